@@ -660,7 +660,15 @@ def _model(case, spec, img, isolist, mech, recover_ok):
     if best[1] - best[0] < 8:
         case.note('model_not_judged_no_converged_run', 1)
         return
-    run_lo, run_hi = float(nzi[best[0] + 1].sma), float(nzi[best[1] - 2].sma)
+    # margins: one isophote at the ends of the list; five where the run is bounded by non-converged isophotes
+    # (e.g. the unfitted start geometry beyond maxrit): the cubic interpolation splines of build_ellipse_model
+    # ring for ~5 knots next to such a jump in x0/y0/eps/pa (measured: 0.78, 0.72, 0.23, 0.10, 0.015 px)
+    m_lo = 5 if best[0] > 0 else 1
+    m_hi = 5 if best[1] < len(nzi) else 1
+    if best[1] - 1 - m_hi <= best[0] + m_lo:
+        case.note('model_not_judged_no_converged_run', 1)
+        return
+    run_lo, run_hi = float(nzi[best[0] + m_lo].sma), float(nzi[best[1] - 1 - m_hi].sma)
     lo = max(run_lo + 1.0, 3.0)
     hi = min(run_hi, rin) - 1.0
     inner = (rr > lo) & (rr < hi)
